@@ -123,6 +123,9 @@ func (c c11Case) String() string {
 	if c.Kind == "file" {
 		return "file " + c.File.String()
 	}
+	if c.Kind == "file-after-failed-write" {
+		return fmt.Sprintf("file %s after a build whose write #%d failed", c.File.String(), c.Fanout)
+	}
 	if c.Kind == "quick" {
 		return fmt.Sprintf("quick L=%d", c.File.L)
 	}
@@ -185,6 +188,21 @@ func (c c11Case) run(viol func(sig, detail string), r *core.Run) {
 	var sz uint64
 	var err error
 	switch c.Kind {
+	case "file-after-failed-write":
+		// a build whose k-th storage Write fails (k = Fanout) runs first, in the
+		// same process; then the build under audit
+		s0 := store.New()
+		k := c.Fanout
+		s0.OnWrite = func(n int) error {
+			if n == k {
+				return store.ErrWrite
+			}
+			return nil
+		}
+		core.Guard(func() {
+			gen.WithWidth(c.File.W, func() { gen.BuildOurs(s0, bytes.NewReader(c.File.content()), c.File.Chunker) })
+		})
+		s, root, sz, err = c.File.build()
 	case "file":
 		s, root, sz, err = c.File.build()
 	case "sharded":
@@ -526,6 +544,13 @@ func runC11(r *core.Run) {
 	}
 	for _, f := range files {
 		cases = append(cases, c11Case{Kind: "file", File: f})
+	}
+	for i, f := range files {
+		if i%7 == 0 && f.L > 0 {
+			for k := 0; k < 3; k++ {
+				cases = append(cases, c11Case{Kind: "file-after-failed-write", File: f, Fanout: k})
+			}
+		}
 	}
 	usize := 9
 	fanouts := []int{8, 16, 256, 1024}
